@@ -73,7 +73,7 @@ fn phase_class(p: &str) -> String {
 fn judge(prop: &str, s: &Scenario, obs: &Obs, end: &EndKind, cens: (u32, u32, u32), cv: &[u64], acc: &mut Acc) -> Vec<(String, String, String)> {
     let mut v: Vec<(String, String, String)> = vec![];
     let reader = matches!(s.kind, Kind::R2 { .. } | Kind::RL);
-    let writer = matches!(s.kind, Kind::W2 | Kind::WL);
+    let writer = matches!(s.kind, Kind::W2 | Kind::W2P | Kind::WL);
     match end {
         EndKind::Failed(p) => {
             acc.failed += 1;
@@ -201,6 +201,13 @@ fn judge(prop: &str, s: &Scenario, obs: &Obs, end: &EndKind, cens: (u32, u32, u3
                     // decode with the single-threaded reader
                     let dec = match s.kind {
                         Kind::W2 => scen::st_decode_lzma2(bytes, None),
+                        // every unit of the MT writer starts with a dictionary reset, so the preset dictionary must not
+                        // influence the stream: a reader that has it and one that does not must both get the input
+                        Kind::W2P => match (scen::st_decode_lzma2(bytes, Some(&scen::preset_text())), scen::st_decode_lzma2(bytes, None)) {
+                            (Ok(a), Ok(b)) if a == b => Ok(a),
+                            (Ok(_), Ok(_)) => Err("decodes differently with and without the preset dictionary".to_string()),
+                            (Err(e), _) | (_, Err(e)) => Err(e),
+                        },
                         _ => scen::st_decode_lzip(bytes),
                     };
                     match dec {
@@ -217,7 +224,7 @@ fn judge(prop: &str, s: &Scenario, obs: &Obs, end: &EndKind, cens: (u32, u32, u3
                         if acc.reference.is_none() {
                             let cuts = flush_cuts(s);
                             acc.reference = Some(match s.kind {
-                                Kind::W2 => scen::ref_w2(&s.data, &cuts),
+                                Kind::W2 | Kind::W2P => scen::ref_w2(&s.data, &cuts),
                                 _ => scen::ref_wl(&s.data, &cuts),
                             });
                         }
@@ -424,7 +431,7 @@ fn scenario_class(s: &Scenario) -> String {
     match &s.kind {
         Kind::R2 { .. } => "lzma2-reader-mt",
         Kind::RL => "lzip-reader-mt",
-        Kind::W2 => "lzma2-writer-mt",
+        Kind::W2 | Kind::W2P => "lzma2-writer-mt",
         Kind::WL => "lzip-writer-mt",
         Kind::Q { .. } => "work-queue",
     }
@@ -436,7 +443,7 @@ fn fault_class(s: &Scenario) -> String {
         "inner-io-error".into()
     } else if s.must_err {
         format!("bad-input:{}", s.name.split('/').next().unwrap_or(""))
-    } else if s.drop_after != usize::MAX || (!s.finish && matches!(s.kind, Kind::W2 | Kind::WL)) {
+    } else if s.drop_after != usize::MAX || (!s.finish && matches!(s.kind, Kind::W2 | Kind::W2P | Kind::WL)) {
         "early-drop".into()
     } else {
         "none".into()
